@@ -17,7 +17,7 @@ func checkC08(r *Report) {
 	e := runEffect(p)
 	pathTrusted(r)
 	effectTrusted(r)
-	r.Explain = "Only the clauses of C08 that are visible in the shape of the code are decided; consistency of the backtracking search over all universes is not. C08.a SNAPSHOT-ISOLATED: a new search state is built from Clone/Copy of the previous one (resolution.pushNewState), versionMap.Clone re-makes both its map and its stack and fills them, and criterion.copy re-makes the two maps that are later updated in place, so backtracking to an earlier state finds it unchanged. C08.b VERSIONMAP: the pin table's map and insertion stack are written only by its own Set/Pop/Clone, and Set/Pop update both on every path, so there is one pinned version per package. C08.c GRAPH-SHAPE (buildGraph): a node is added only for a pin that has a route to the root and only when the package has no node yet, the id is recorded in the package-keyed table in the same step (one node per package, every node reachable), and every recorded requirement of a selected package ends in AddEdge, an error return, or the one documented skip (the parent has no node). C08.d ROOT-FIXED: for a requirement on the root's package provider.matchingVersions returns nothing but the root version. C08.e PARENT-KEY: the test by which mergeIntoCriterion decides that a (requirement, parent) pair is already recorded reads every component of the parent that the readers of the recorded parents (buildGraph, hasRouteToRoot) distinguish; otherwise the record of a replaced parent version stands in for the pinned one and the dependency is dropped as disconnected. Not decided: that the selected versions satisfy their specifiers, pip's prerelease rule, marker evaluation, and everything about which candidates the search pins."
+	r.Explain = "Only the clauses of C08 that are visible in the shape of the code are decided; consistency of the backtracking search over all universes is not. C08.a SNAPSHOT-ISOLATED: a new search state is built from Clone/Copy of the previous one (resolution.pushNewState), versionMap.Clone re-makes both its map and its stack and fills them, and criterion.copy re-makes the two maps that are later updated in place, so backtracking to an earlier state finds it unchanged. C08.b VERSIONMAP: the pin table's map and insertion stack are written only by its own Set/Pop/Clone, and Set/Pop update both on every path, so there is one pinned version per package. C08.c GRAPH-SHAPE (buildGraph): a node is added only for a pin that has a route to the root and only when the package has no node yet, the id is recorded in the package-keyed table in the same step (one node per package, every node reachable), and every recorded requirement of a selected package ends in AddEdge, an error return, or the one documented skip (the parent has no node). C08.d ROOT-FIXED: for a requirement on the root's package provider.matchingVersions returns nothing but the root version. C08.f CRIT-MAP-FROZEN: a criterion stored in a search state is shared with the older states kept for backtracking (criteria.Copy is shallow), so its extras/incompatibilities maps are never updated in place: every map update, and every call whose callee (by its effect summary) writes the map it is given, acts on a fresh map or on the maps of a criterion just produced by copy(). C08.e PARENT-KEY: the test by which mergeIntoCriterion decides that a (requirement, parent) pair is already recorded reads every component of the parent that the readers of the recorded parents (buildGraph, hasRouteToRoot) distinguish; otherwise the record of a replaced parent version stands in for the pinned one and the dependency is dropped as disconnected. Not decided: that the selected versions satisfy their specifiers, pip's prerelease rule, marker evaluation, and everything about which candidates the search pins."
 	r.Assume = []string{"hasRouteToRoot is correct (its termination is decided under C04.4)"}
 
 	// ---- a. SNAPSHOT-ISOLATED
@@ -366,6 +366,7 @@ func checkC08(r *Report) {
 		}
 	}
 	parentKeyRule(r, p, "C08.e/PARENT-KEY")
+	critMapFrozenRule(r, p, e, "C08.f/CRIT-MAP-FROZEN")
 	sortObls(r)
 }
 
@@ -647,4 +648,194 @@ func loopAccountBoth(l *loop, markers map[string]bool, exempt []exemption) loopA
 		}
 	}
 	return res
+}
+
+// critMapFrozenRule: see checkC08 (C08.f).
+func critMapFrozenRule(r *Report, p *Prog, e *Effect, rule string) {
+	isCriterion := func(t types.Type) bool {
+		if pt, ok := t.Underlying().(*types.Pointer); ok {
+			t = pt.Elem()
+		}
+		return strings.HasSuffix(t.String(), "resolve/pypi.criterion")
+	}
+	// storedCritMap: v is the value of a map field of a criterion that was not
+	// produced by copy() or built in this function. Returns the field name.
+	var storedCritMap func(v ssa.Value, depth int) (string, bool)
+	fresh := func(x ssa.Value) bool {
+		for d := 0; d < 6 && x != nil; d++ {
+			switch y := x.(type) {
+			case *ssa.Call:
+				return strings.HasSuffix(staticCalleeName(y), "criterion).copy")
+			case *ssa.Alloc:
+				if s := singleStore(y); s != nil {
+					x = s
+					continue
+				}
+				// a composite literal built here: no whole-struct store
+				whole := false
+				for _, rf := range *y.Referrers() {
+					if st, ok := rf.(*ssa.Store); ok && st.Addr == y {
+						whole = true
+					}
+				}
+				return !whole
+			case *ssa.UnOp:
+				x = y.X
+				continue
+			}
+			return false
+		}
+		return false
+	}
+	storedCritMap = func(v ssa.Value, depth int) (string, bool) {
+		if depth > 6 {
+			return "", false
+		}
+		switch x := v.(type) {
+		case *ssa.Field:
+			if isCriterion(x.X.Type()) {
+				if _, ok := x.Type().Underlying().(*types.Map); ok {
+					return x.X.Type().Underlying().(*types.Struct).Field(x.Field).Name(), !fresh(x.X)
+				}
+			}
+		case *ssa.UnOp:
+			if fa, ok := x.X.(*ssa.FieldAddr); ok && x.Op == token.MUL && isCriterion(fa.X.Type()) {
+				if _, ok := x.Type().Underlying().(*types.Map); ok {
+					st := fa.X.Type().Underlying().(*types.Pointer).Elem().Underlying().(*types.Struct)
+					return st.Field(fa.Field).Name(), !fresh(fa.X)
+				}
+			}
+		case *ssa.Phi:
+			for _, ed := range x.Edges {
+				if n, bad := storedCritMap(ed, depth+1); bad {
+					return n, true
+				}
+			}
+		}
+		return "", false
+	}
+	nSeen := 0
+	perFn := map[*ssa.Function]int{}
+	for _, f := range p.Funcs {
+		if f.Pkg == nil || f.Pkg.Pkg.Path() != modPrefix+"resolve/pypi" {
+			continue
+		}
+		for _, b := range f.Blocks {
+			for _, in := range b.Instrs {
+				switch x := in.(type) {
+				case *ssa.MapUpdate:
+					if name, bad := storedCritMap(x.Map, 0); name != "" {
+						nSeen++
+						perFn[f]++
+						key := fmt.Sprintf("%s: update of criterion.%s #%d", fnKey(f), name, perFn[f])
+						if bad {
+							r.bad(rule, key, p.pos(x.Pos()), "the map of a criterion taken from a search state is updated in place: the states kept for backtracking share that criterion, so what is added here survives a backtrack or a rejected candidate")
+						} else {
+							r.ok(rule, key, p.pos(x.Pos()), "the criterion was just produced by copy() or built here")
+						}
+					}
+				case *ssa.Call:
+					sc := x.Call.StaticCallee()
+					if sc == nil || !p.inScope(sc) {
+						continue
+					}
+					for k, a := range x.Call.Args {
+						name, bad := storedCritMap(a, 0)
+						if name == "" {
+							continue
+						}
+						nSeen++
+						perFn[f]++
+						key := fmt.Sprintf("%s: criterion.%s passed to %s #%d", fnKey(f), name, fnKey(sc), perFn[f])
+						writes, where := writesMapParam(p, sc, k, 0)
+						switch {
+						case writes && bad:
+							r.bad(rule, key, p.pos(x.Pos()), "the callee writes the map it is given ("+where+") and is given the map of a criterion taken from a search state: the states kept for backtracking share that criterion, so what is added survives a backtrack or a rejected candidate")
+						case writes:
+							r.ok(rule, key, p.pos(x.Pos()), "the callee writes the map, but the criterion was just produced by copy()")
+						default:
+							r.ok(rule, key, p.pos(x.Pos()), "the callee's effect summary does not write this argument")
+						}
+					}
+				}
+			}
+		}
+	}
+	r.floor(rule, "uses of a criterion's maps as update target or call argument", nSeen, 2)
+}
+
+// writesMapParam: f (or an in-scope function it hands the parameter on to)
+// updates, deletes from or clears the map it receives as parameter k. The map
+// escaping into a field or a closure is not followed.
+func writesMapParam(p *Prog, f *ssa.Function, k int, depth int) (bool, string) {
+	if depth > 4 || k >= len(f.Params) || f.Blocks == nil {
+		return false, ""
+	}
+	prm := ssa.Value(f.Params[k])
+	isParam := func(v ssa.Value) bool {
+		seen := map[ssa.Value]bool{}
+		var walk func(x ssa.Value, d int) bool
+		walk = func(x ssa.Value, d int) bool {
+			if x == nil || seen[x] || d > 8 {
+				return false
+			}
+			seen[x] = true
+			if x == prm {
+				return true
+			}
+			switch y := x.(type) {
+			case *ssa.Phi:
+				for _, e := range y.Edges {
+					if walk(e, d+1) {
+						return true
+					}
+				}
+			case *ssa.UnOp:
+				if al, ok := y.X.(*ssa.Alloc); ok && y.Op == token.MUL && al.Referrers() != nil {
+					for _, rf := range *al.Referrers() {
+						if st, ok := rf.(*ssa.Store); ok && st.Addr == al && walk(st.Val, d+1) {
+							return true
+						}
+					}
+				}
+			case *ssa.ChangeType:
+				return walk(y.X, d+1)
+			}
+			return false
+		}
+		return walk(v, 0)
+	}
+	for _, b := range f.Blocks {
+		for _, in := range b.Instrs {
+			switch x := in.(type) {
+			case *ssa.MapUpdate:
+				if isParam(x.Map) {
+					return true, "map update in " + fnKey(f) + " at " + p.pos(x.Pos())
+				}
+			case ssa.CallInstruction:
+				c := x.Common()
+				if bi, ok := c.Value.(*ssa.Builtin); ok && (bi.Name() == "delete" || bi.Name() == "clear") && len(c.Args) > 0 && isParam(c.Args[0]) {
+					return true, bi.Name() + " in " + fnKey(f) + " at " + p.pos(x.Pos())
+				}
+				sc := c.StaticCallee()
+				if sc == nil {
+					continue
+				}
+				name := fullName(sc)
+				if (strings.HasPrefix(name, "maps.Copy") || strings.HasPrefix(name, "maps.Insert") || strings.HasPrefix(name, "maps.DeleteFunc")) && len(c.Args) > 0 && isParam(c.Args[0]) {
+					return true, name + " in " + fnKey(f) + " at " + p.pos(x.Pos())
+				}
+				if p.inScope(sc) {
+					for j, a := range c.Args {
+						if isParam(a) {
+							if w, where := writesMapParam(p, sc, j, depth+1); w {
+								return true, where
+							}
+						}
+					}
+				}
+			}
+		}
+	}
+	return false, ""
 }
